@@ -1,6 +1,7 @@
 """C03 C04 C06 C07 C17 (Joe.tla, JoeTrace.tla): the provider, by exhaustive model checking of its channel
 operations and by validation of traces recorded from the real Joe under seeded schedules."""
 import json
+import shutil
 import os
 import re
 import subprocess
@@ -62,6 +63,18 @@ def collect_traces(ctx, focus, total, tag, agg, chunk=250, race=False, runner=No
             # the scenarios before the blocked one ran normally: the 10 s (5 s) of the blocked one aside, how long did they take?
             per = max(0.0, _time.time() - _t0 - 10.0) / (blocked["seed"] - (base + done))
             agg["per_scenario_s"] = min(agg.get("per_scenario_s", per), per)
+        if blocked:
+            # the recording of the scenario that missed its deadline was cut there: it is no complete scenario, and whether the
+            # call blocks is decided by the re-run rule below - it is validated as a prefix (everything but AllReturned)
+            lines = open(trace).read().splitlines()
+            resets = [j for j, l in enumerate(lines) if '"e":"reset"' in l]
+            if resets:
+                with open(trace, "w") as f:
+                    f.write("".join(l + "\n" for l in lines[:resets[-1]]))
+                cut = trace + ".cut.ndjson"
+                with open(cut, "w") as f:
+                    f.write("".join(l + "\n" for l in lines[resets[-1]:]))
+                agg.setdefault("cut_traces", []).append(cut)
         traces.append(trace)
         if crashed:
             agg["crashes"] += 1
@@ -130,13 +143,13 @@ def pub_after():
     return Raw("(" + " @@ ".join('"%s" :> "%s"' % (p, a) for p, a in after.items()) + ")")
 
 
-def validate_joe_trace(ctx, trace, tag):
+def validate_joe_trace(ctx, trace, tag, invariants=None):
     """Validates one trace file against JoeTrace.tla.  Returns (ok, rejection text, TLCResult).
     The identities are the driver's fixed universe (given as explicit constants: TLC would otherwise
     re-evaluate them from the trace in every state)."""
     consts = {"Subs": set(SUBS), "Pubs": set(PUBS), "Downs": set(DOWNS), "None": NONE, "PubAfter": pub_after(), "WithReplayer": True, "RCap": 0}
     tag = re.sub(r"[^A-Za-z0-9_]", "_", tag)
-    d = core.write_mc(ctx, "JT_" + tag, "JoeTrace", consts, spec="Spec", invariants=TRACE_INVS, constraint="HighWater", postcondition="Accepted")
+    d = core.write_mc(ctx, "JT_" + tag, "JoeTrace", consts, spec="Spec", invariants=invariants or TRACE_INVS, constraint="HighWater", postcondition="Accepted")
     env = {"TRACE": trace, "JAVA_TOOL_OPTIONS": "-Dtlc2.tool.queue.IStateQueue=StateDeque"}
     r = core.run_tlc(ctx, d, "JT_" + tag, workers=1, timeout=1800, env=env)
     if r.violated is None:
@@ -220,6 +233,14 @@ def model_check(ctx, names, agg):
 
 def trace_check(ctx, focus, total, tag, agg, race=False, chunk=250, runner=None, base=None):
     traces = collect_traces(ctx, focus, total, tag, agg, chunk=chunk, race=race, runner=runner, base=base)
+    for j, cut in enumerate(agg.pop("cut_traces", [])):
+        ok, rej, r = validate_joe_trace(ctx, cut, "%scut%d" % (tag, j), invariants=[i for i in TRACE_INVS if i != "AllReturned"])
+        if not ok:
+            keep = os.path.join(core.OUT, "joe-trace-%s-%s-s%d-cut%d.ndjson" % (ctx.pid, tag, ctx.seed, j))
+            shutil.copy(cut, keep)
+            seed = json.loads(open(cut).readline()).get("seed")
+            core.report(ctx, "JoeTrace.tla rejects what the real Joe did in scenario %s (%s, recording cut at the deadline): %s" % (seed, focus, (rej or "")[:700]),
+                        {"trace_spec": "JoeTrace", "trace": keep, "scenario_seed": seed, "focus": focus, "rejected": rej}, "joe:trace:" + classify(rej))
     for i, tr in enumerate(traces):
         nev = sum(1 for _ in open(tr))
         nsc = sum(1 for l in open(tr) if '"e":"reset"' in l)
